@@ -125,6 +125,10 @@ def run_case(w, rng):
                         arg = ncls(arg, _buffer=rng.choice([None, env.buf]))
                         how = "xobject"
                         w.count("whole_from_xobject")
+                        if k in ("ar", "st") and rng.random() < 0.4:
+                            # ... seen through a view rebuilt from (buffer, offset)
+                            arg = ncls._from_buffer(arg._buffer, arg._offset)
+                            w.count("whole_from_rebuilt_view")
                     elif op == "ref" and newv is not None and rng.random() < 0.4:
                         tt = nt["to"] if k == "ref" else nt["m"][newv[0]]
                         arg = build(tt, c.cache)(plain(tt, newv if k == "ref" else newv[1], rng), _buffer=env.buf)
